@@ -111,14 +111,11 @@ impl<T> DefList<T>
 
     pub fn maybe_get(&self, item_ref: util::ItemRef<T>) -> Option<&T>
     {
-        if item_ref.0 >= self.defs.len()
-        {
-            None
-        }
-        else
-        {
-            Some(self.defs[item_ref.0].as_ref().unwrap())
-        }
+        // An item that has been declared but not defined yet
+        // leaves an empty slot, which is also "not there"
+        self.defs
+            .get(item_ref.0)
+            .and_then(|def| def.as_ref())
     }
 
 
